@@ -153,7 +153,7 @@ def run_seg(c, P):
     if P.get('big_prefix'):
         # a large binary frame in front (burst right after the handshake)
         n = P['big_prefix']
-        stream = [0x82, 126, n >> 8, n & 255] + [0x41] * n + stream
+        stream = ([0x82, 126, n >> 8, n & 255] if n < 65536 else [0x82, 127] + list(n.to_bytes(8, 'big'))) + [0x41] * n + stream
     # run A: reference segmentation
     wa, ra = one_run(c, P, stream, ('one',))
     hs_len = wa.notes.get('hs_len', 0)
